@@ -289,8 +289,8 @@ def r3_distance_mask(ctx):
 def r4_grid_coordinates(ctx):
     qn = "verde.mask._get_grid_coordinates"
     K.roles_rule(ctx, "R4", [qn], with_return=False, require={qn: [{"meshgrid-operands"}]})
-    neither = any(p.exit == "raise" and lookup(p.decided, ("cmp", "is", ("param", "coordinates"), NONE)) is True and lookup(p.decided, ("cmp", "is", ("param", "grid"), NONE)) is True for p in ctx.paths(qn))
-    ctx.check("R4", qn + "|rejects-neither", True if neither else False, "neither coordinates nor grid raises", bad="neither coordinates nor grid is accepted", fn=qn)
+    _both, neither = K.both_neither(ctx, qn, "coordinates", "grid")
+    ctx.check("R4", qn + "|rejects-neither", neither, "neither coordinates nor grid raises", bad="neither coordinates nor grid is accepted", fn=qn)
     for p in ctx.paths(qn):
         if p.exit != "return":
             continue
